@@ -77,6 +77,8 @@ enum : uint32_t {
     F_INPLACE = 32,   // AEAD in-place
     F_NOCUSTOM = 64,  // P_INIT: custom = NULL, 0
     F_TWICE = 128,    // free: call twice in a row
+    F_FORK = 256,     // the caller's process identity changes before this op (object inherited by a forked child)
+    F_BOUNDARY = 512, // X_CLEAN: operate on memory placed at a 4 GiB address boundary
 };
 
 struct Op {
@@ -109,6 +111,9 @@ struct Plan {
     bool os_scribble = false;     // OS stub scribbles on the buffer of a failing call
     bool alloc_fail = false;      // allocator seam fails every request from library code
     int fd_base = 3;              // first fd number handed out by the simulated open()
+    bool os_echo = false;         // OS stub may 'deliver' exactly the bytes the buffer already holds (a legal, if unlikely, answer)
+    bool sleep_interrupt = false; // simulated sleeps may be interrupted (EINTR)
+    uint64_t clock_step_ns = 0;   // simulated time that passes per OS call
 };
 Json plan_to_json(const Plan &p);
 bool plan_from_json(const Json &j, Plan &p);
@@ -137,7 +142,7 @@ enum Ctr {
     CT_F_DELIVERY_SHORT, CT_F_DELIVERY_ZERO, CT_F_DELIVERY_FULL,
     CT_F_OS_EINTR, CT_F_OS_EAGAIN, CT_F_OS_PERM, CT_F_OS_OK, CT_F_OS_OPENFAIL, CT_F_OS_SHORTREAD,
     CT_F_OS_STALE_ERRNO, CT_F_OS_SCRIBBLE, CT_F_DIRTY, CT_F_ABANDON, CT_F_FREE_INJECTED, CT_F_ALLOCFAIL_RUNS,
-    CT_F_STACK_PAINT,
+    CT_F_STACK_PAINT, CT_F_OS_ECHO, CT_F_SLEEP_INTERRUPTED, CT_F_SLEEPS, CT_F_CLOCK_READS, CT_F_FORK, CT_F_BOUNDARY,
     // probes
     CT_P_HASH_TOPUP_CONTINUE, CT_P_HASH_TOPUP_EXACT, CT_P_HASH_TOPUP_SHORT, CT_P_HASH_EMPTY_UPDATE, CT_P_HASH_NULL_UPDATE,
     CT_P_HASH_FINAL, CT_P_HASH_REINIT_MID, CT_P_HASH_INIT_AFTER_FREE, CT_P_HASH_INIT_AFTER_FINAL,
@@ -150,7 +155,7 @@ enum Ctr {
     CT_P_PRNG_INIT_FAIL, CT_P_PRNG_RESEED_FAIL, CT_P_PRNG_NULLCB, CT_P_PRNG_SYSTEM, CT_P_PRNG_TWIN_FLIP, CT_P_PRNG_TWIN_EQUIV,
     CT_P_TRNG_CALLS, CT_P_TRNG_SUCCESS_AFTER_RETRY, CT_P_TRNG_PERMANENT, CT_P_TRNG_FD_OPENED,
     CT_P_FREE_CHECKED, CT_P_FREE_NEVER_INIT, CT_P_FREE_MID, CT_P_FREE_AFTER_FINAL, CT_P_FREE_TWICE, CT_P_CLEAN_CHECKED,
-    CT_P_MIX_SERIAL_COMPARED, CT_P_MIX_REORDER_COMPARED, CT_P_HEAP_CALLS, CT_ASAN_READ_OBS,
+    CT_P_MIX_SERIAL_COMPARED, CT_P_MIX_REORDER_COMPARED, CT_P_HEAP_CALLS, CT_ASAN_READ_OBS, CT_P_STACK_SCAN,
     CT_COUNT
 };
 const char *ctr_name(int c);
@@ -243,6 +248,9 @@ struct CurOp {                 // context of the op currently executing in a tas
 
 struct TaskState {
     World *w = nullptr; int id = 0;
+    int pid_epoch = 0;          // simulated process identity (changes at F_FORK ops)
+    uint64_t now_ns = 0;        // simulated clock of this caller
+    uint64_t sleep_calls = 0;
     HashObj h[NOBJ]; HmacObj m[NOBJ]; HkdfObj k[NOBJ]; PrngObj p[NOBJ];
     Slot clean_slot;
     std::vector<OpResult> res;
